@@ -59,7 +59,7 @@ CHECKS['C03'] = {
     'verus_units': ['eval', 'select', 'mapping', 'valuetype', 'converter'],
     'clause_prefixes': ['c03', 'value.', 'engine.', 'row.', 'select.'],
     'technique': 'contract-based deductive verification (Verus): arms of ExpressionExecutionEngine::evaluate extracted from /repo and proved against a recursive specification sem_eval written from the property text; structural induction through the contract of evaluate',
-    'claim': 'Proof, for all expression trees, rows and values, that the extracted arms of evaluate (literal, column access, comparison, IS, arithmetic, unary, AND/OR, IN/NOT IN, subscript, CASE, aggregate reference) return exactly sem_eval(expression, row) - comparisons by value and false on NULL, NULL-propagating arithmetic with overflow and division by zero as errors, two-valued logic, IN as OR of =, first true CASE branch, 1-based subscripts - or an error when sem_eval has no value. Function calls: the arguments are evaluated left to right and the first one without a value ends the call; make_timestamp (seven INT parts as documented, a part that does not fit its field gives NULL, never a wrapped date), greatest / least (same-type pairs, NULL gives NULL), abs and pow (exact or no value), sqrt, length (characters), upper / lower, EXTRACT year..second, array_length are proved equal to sem_function written from the README; Statement lowering (unit converter): create_select_statement keeps the projections in order, names each output column by its alias, else its column name, else p<i>, and passes FROM / WHERE / LIMIT / DISTINCT through; transform_statement makes a query with GROUP BY or an aggregate an aggregate query. Casts (TypeConversion) are proved equal to sem_convert (text is parsed as the target type, an interval counts its seconds, a value of the target type is itself, anything renders as text, every other combination has no value); array_cat / array_append / array_prepend are proved against relational specifications (element order, element type check); for each of these functions a call with the documented number of arguments is proved to reach the arm of its function (rule E3d).',
+    'claim': 'Proof, for all expression trees, rows and values, that the extracted arms of evaluate (literal, column access, comparison, IS, arithmetic, unary, AND/OR, IN/NOT IN, subscript, CASE, aggregate reference) return exactly sem_eval(expression, row) - comparisons by value and false on NULL, NULL-propagating arithmetic with overflow and division by zero as errors, two-valued logic, IN as OR of =, first true CASE branch, 1-based subscripts - or an error when sem_eval has no value. Function calls: the arguments are evaluated left to right and the first one without a value ends the call; make_timestamp (seven INT parts as documented, a part that does not fit its field gives NULL, never a wrapped date), greatest / least (same-type pairs, NULL gives NULL), abs and pow (exact or no value), sqrt, length (characters), upper / lower, EXTRACT year..second, array_length are proved equal to sem_function written from the README; Statement lowering (unit converter): create_select_statement keeps the projections in order, names each output column by its alias, else its column name, else p<i>, and passes FROM / WHERE / LIMIT / DISTINCT through; transform_statement makes a query with GROUP BY or an aggregate an aggregate query; the arms of transform_expression for literals, columns, binary / boolean / unary operators, NOT, IS, subscripts and casts are proved equal to sem_lower_st (operator symbols mean the SQL operators, operands stay in written order, a column in HAVING becomes the group\'s key part numbered in order of appearance). Casts (TypeConversion) are proved equal to sem_convert (text is parsed as the target type, an interval counts its seconds, a value of the target type is itself, anything renders as text, every other combination has no value); array_cat / array_append / array_prepend are proved against relational specifications (element order, element type check); for each of these functions a call with the documented number of arguments is proved to reach the arm of its function (rule E3d).',
     'note': 'Trusted: derived comparison of Value (uninterpreted value_cmp; its laws are C16), IEEE and chrono arithmetic as uninterpreted total functions, ValueType::parse, closure/loop contracts spliced by ordinal (rule E5). Unproved: the FunctionCall arms regexp_matches, array / array_unique, now, EXTRACT(EPOCH), date_trunc (chrono / regex / iterator adapters); lowering of parse trees and result column names are not covered.',
     'level': 'proof',
     'explanation': 'Each match arm of evaluate is emitted as its own function (rule E3) whose body is the arm text from /repo; recursive calls see the full contract of evaluate, so the arms together are a proof by structural induction that evaluate refines sem_eval.',
@@ -68,7 +68,7 @@ CHECKS['C03'] = {
         'f64 arithmetic and chrono DateTime/Duration arithmetic are uninterpreted total functions (chrono range overflow is not modelled)',
         'termination of evaluate (recursion on strict sub-expressions) is not checked: evaluate is external_body for its callers',
     ],
-    'unproved': ['evaluate arms FunctionCall for regexp_matches, array, array_unique, now, EXTRACT(EPOCH), date_trunc', 'parser_tree_converter::transform_expression / transform_aggregate (expression lowering; named by sem_lower)'],
+    'unproved': ['evaluate arms FunctionCall for regexp_matches, array, array_unique, now, EXTRACT(EPOCH), date_trunc', 'parser_tree_converter::transform_expression arms IN / Call / CASE (closures capturing the lowering state), transform_aggregate / extract_aggregate / transform_call_aggregate'],
 }
 CHECKS['C09'] = {
     'verus_units': ['eval', 'follow', 'select', 'engine', 'extract', 'parser', 'tokenizer', 'converter', 'valuetype', 'executor', 'aggregate', 'aggdispatch', 'aggresult', 'join', 'joinload', 'mapping'],
@@ -159,10 +159,10 @@ CHECKS['C02'] = {
 }
 
 CHECKS['C13'] = {
-    'verus_units': ['parser', 'tokenizer'],
+    'verus_units': ['parser', 'tokenizer', 'converter'],
     'clause_prefixes': ['c13'],
     'technique': 'contract-based deductive verification (Verus): BinaryOperators::new / get, Parser::get_token_precedence, Parser::parse_unary_operator and tokenize extracted from /repo; the precedence numbers are read from the source on every run, the functions are proved to use exactly them, and a lemma proves that the numbers realise the standard SQL chain',
-    'claim': 'Proof that the precedence table the parser consults (symbolic operators, IS/IN/AND/OR keywords, ::, [ ]) and the operand levels of prefix NOT and unary minus realise OR < AND < NOT < comparisons = IS = IN < + - < * / < unary minus <= :: = [ ] <= qualified names, and that get_token_precedence / parse_unary_operator use exactly these numbers. The body of parse_binary_operator_rhs is verified too, with the textbook invariant of precedence climbing as an in-body obligation: the right operand of an operator of level p is extended only through a recursive call with minimum level p + 1 (tighter operators only, equal levels associate to the left). The tokenizer (unit tokenizer) is proved to fuse two operator characters only when they are adjacent in the text and only for the pairs listed in the source, which a lemma pins to <= >= != -- (and =>): an operator followed by a minus sign stays two tokens. Operands (parse_primary_expression, parse_identifier_expression, parse_list, parse_arguments): ( e ) not followed by a comma IS the expression e (parentheses are accepted wherever an operand is and add nothing), only ( e , ... ) is a tuple and it has at least two elements, a list always has at least one element, a bare name is a column. NOT covered: a full proof that the resulting tree is the reference grouping; the one-element IN list is handled inside parse_binary_operator_rhs (verified body, no separate clause) and demonstrated by a replay.',
+    'claim': 'Proof that the precedence table the parser consults (symbolic operators, IS/IN/AND/OR keywords, ::, [ ]) and the operand levels of prefix NOT and unary minus realise OR < AND < NOT < comparisons = IS = IN < + - < * / < unary minus <= :: = [ ] <= qualified names, and that get_token_precedence / parse_unary_operator use exactly these numbers. The body of parse_binary_operator_rhs is verified too, with the textbook invariant of precedence climbing as an in-body obligation: the right operand of an operator of level p is extended only through a recursive call with minimum level p + 1 (tighter operators only, equal levels associate to the left). The tokenizer (unit tokenizer) is proved to fuse two operator characters only when they are adjacent in the text and only for the pairs listed in the source, which a lemma pins to <= >= != -- (and =>): an operator followed by a minus sign stays two tokens. Operands (parse_primary_expression, parse_identifier_expression, parse_list, parse_arguments): ( e ) not followed by a comma IS the expression e (parentheses are accepted wherever an operand is and add nothing), only ( e , ... ) is a tuple and it has at least two elements, a list always has at least one element, a bare name is a column. The lowering of operator nodes (unit converter) keeps the operands in written order and maps each symbol to its SQL operator. NOT covered: a full proof that the resulting tree is the reference grouping; the one-element IN list is handled inside parse_binary_operator_rhs (verified body, no separate clause) and demonstrated by a replay.',
     'note': 'Trusted: HashMap<Operator, BinaryOperator> as a finite map (VOpMap), derived Token equality, parse_binary_operator_rhs / parse_primary_expression as stand-ins that only record the minimum precedence they are called with. A renumbering of the levels that keeps the order verifies; a change of the order fails the lemma.',
     'level': 'proof',
     'explanation': 'Table-level proof (DESIGN C13): self-generated conditions - constants P_* are cut from the source text, the extracted functions must return them, lemma_precedence_chain relates them as the property demands.',
